@@ -185,6 +185,7 @@ void run_exec(const Execution &ex) {
     g_kind = (int) ex.cfg.num("kind", 0);
     g_args = (int) ex.cfg.num("args", 0);
     g_fin_logged = false;
+    if (rd_atomic_yield) rd_atomic_yield((int) ex.cfg.num("ay", 0));
     Ctl ctl;
     ctl.max_steps = 2000;
     if (ex.cfg.str("mode", "script") == "script") {
